@@ -68,7 +68,7 @@ def main(argv):
         elif a == "--runs":
             runs = int(next(it))
         elif a == "--replay":
-            replay = next(it)
+            replay = os.path.abspath(next(it))
         elif a == "--one":
             one = int(next(it))
         elif a == "--digests":
